@@ -14,8 +14,9 @@ import (
 
 // locker: the real internal/locker driven by goroutines, one call at a time, observed at quiescence.
 // Input: one scenario per line {"id":1,"threads":3,"ops":[{"op":"lock","t":0,"n":"a"},{"op":"unlock","n":"a"},...]}
-//   lock   : thread t (if it is idle) calls Lock(n) in its own goroutine; the driver waits up to 40 ms for it to return
-//   unlock : the thread that holds n (the driver knows it) calls Unlock(n); the driver then waits up to 40 ms for ONE of
+//   lock   : thread t (if it is idle) calls Lock(n) in its own goroutine; the driver waits for it to return: 5 s when the name is
+//            free (it has to), 40 ms when somebody holds it (it must not)
+//   unlock : the thread that holds n (the driver knows it) calls Unlock(n); the driver then waits (up to 5 s) for ONE of
 //            the blocked Lock(n) calls to return
 // Output: per op {"skip":true} or {"t":..,"ret":bool} / {"t":..,"err":bool,"woken":tid|-1}, each with the names in the
 // Locker's map, the holders and the blocked threads after the call.
@@ -94,12 +95,18 @@ func lockerRun(sc *lkScenario) []map[string]interface{} {
 				close(ch)
 			}(op.N)
 			o["t"] = op.T
+			// the driver knows whether somebody holds the name: a call on a free name has to return (a slow machine gets 5 s),
+			// a call on a held name is given 40 ms to show that it does not
+			w := wait
+			if _, held := holder[op.N]; !held {
+				w = 5 * time.Second
+			}
 			select {
 			case <-ch:
 				state[op.T] = "h:" + op.N
 				holder[op.N] = op.T
 				o["ret"] = true
-			case <-time.After(wait):
+			case <-time.After(w):
 				state[op.T] = "w:" + op.N
 				o["ret"] = false
 			}
@@ -123,7 +130,8 @@ func lockerRun(sc *lkScenario) []map[string]interface{} {
 				}
 			}
 			sort.Ints(waiting)
-			deadline := time.After(wait)
+			// somebody waits for the name: one of them has to get it (5 s on a slow machine)
+			deadline := time.After(5 * time.Second)
 		poll:
 			for len(waiting) > 0 {
 				for _, w := range waiting {
